@@ -24,7 +24,11 @@ TSys == /\ Ev("plg.sys") /\ UNCHANGED chain
 TClose == /\ Ev("plg.close") /\ UNCHANGED chain
           /\ Flag({E.expected[i] : i \in 1..Len(E.expected)} = {E.notified[i] : i \in 1..Len(E.notified)} /\ Len(E.notified) = Len(E.expected),
                   "close notifications do not cover exactly the proxies that stopped")
-TNext == TReset \/ TCase \/ TSys \/ TClose
+\* component level: the notification chain on the real plugin.Manager
+TCloseCase == /\ Ev("plg.closecase") /\ UNCHANGED chain
+              /\ Flag([i \in 1..Len(E.seen) |-> E.seen[i]] = CloseDecl(ChainOf(E.chain, CloseOp)),
+                      "close notification chain: a registered plugin was not notified (or an unregistered one was)")
+TNext == TReset \/ TCase \/ TSys \/ TClose \/ TCloseCase
 TSpec == TInit /\ [][TNext]_<<l, bad, chain>>
 NoMismatch == bad = {}
 HWM == TLCSet(1, IF TLCGet(1) < l THEN l ELSE TLCGet(1))
